@@ -251,6 +251,12 @@ FaceHandle TopologyKernel::add_face(const std::vector<VertexHandle>& _vertices) 
         assert(it->is_valid() && (size_t)it->idx() < n_vertices() && !is_deleted(*it));
 #endif
 
+    // A face without vertices is never valid (and the loop below looks one
+    // element ahead)
+    if (_vertices.empty()) {
+        return InvalidFaceHandle;
+    }
+
     // Add edge for each pair of vertices
     std::vector<HalfEdgeHandle> halfedges;
     std::vector<VertexHandle>::const_iterator it = _vertices.begin();
